@@ -21,7 +21,7 @@ the flag set, not before it was set; listen() returns no earlier than the client
 that received at least one reply; every such connection's reply stream is complete per the reply-stream checker; \
 the socket path is gone afterwards; generous upper bounds (flag -> return within 2.1 s when nothing is in flight, \
 last close -> return within idle_timeout + 2 s) must be missed twice in a row to count. A connection that connected 150 ms or more before the flag was set (saturated-pool scenarios included) is served before listen() returns. Non-trivial: a scenario \
-with at least one connection alive at a deadline or at the time the flag is set; distinct by scenario.";
+with at least one connection alive at a deadline or at the time the flag is set; distinct by scenario. A timeout error returned more than 30 ms after the stop flag was set (three runs in a row) means a set flag was passed over; fixed scenarios raise the flag inside the last poll interval before the idle deadline, and saturate the pool with one more connection queued that then lives across idle deadlines.";
 
 #[derive(Clone, Debug)]
 pub struct ConnPlan {
@@ -76,7 +76,11 @@ fn scn_from(v: &Value) -> Scn {
 }
 
 struct ConnObs {
+    /// taken after connect() returned: the connection existed no later than this
     connect: Option<Instant>,
+    /// taken before connect() was called: the server cannot have accepted earlier than this (under load
+    /// the two can be far apart; one-sided rules use the side that keeps them sound)
+    connect_lo: Option<Instant>,
     close: Instant,
     bytes: Vec<u8>,
     plan: ConnPlan,
@@ -91,9 +95,10 @@ fn conn_thread(addr: String, t0: Instant, plan: ConnPlan, number: usize) -> Conn
     if open_at > now {
         std::thread::sleep(open_at - now);
     }
+    let connect_lo = Instant::now();
     let mut peer = match Peer::connect(&addr) {
         Ok(p) => p,
-        Err(_) => return ConnObs { connect: None, close: Instant::now(), bytes: vec![], plan, number },
+        Err(_) => return ConnObs { connect: None, connect_lo: None, close: Instant::now(), bytes: vec![], plan, number },
     };
     let connect = Instant::now();
     let base = (number + 1) * 1000;
@@ -124,7 +129,7 @@ fn conn_thread(addr: String, t0: Instant, plan: ConnPlan, number: usize) -> Conn
     peer.half_close();
     let _ = peer.wait_eof(Duration::from_secs(10));
     let bytes = peer.finish();
-    ConnObs { connect: Some(connect), close, bytes, plan, number }
+    ConnObs { connect: Some(connect), connect_lo: Some(connect_lo), close, bytes, plan, number }
 }
 
 #[derive(Debug)]
@@ -135,6 +140,8 @@ pub enum ScnOutcome {
     /// a connection that arrived while another one was still being served (no stop flag yet)
     /// got no reply; not a verdict unless it repeats
     Unserved(String),
+    /// a timeout error although the stop flag had been set well before listen() returned (needs confirmation)
+    TimeoutDespiteFlag(String),
 }
 
 pub fn run_scenario(s: &Scn, tag: &str) -> Result<ScnOutcome, Fail> {
@@ -168,6 +175,7 @@ pub fn run_scenario(s: &Scn, tag: &str) -> Result<ScnOutcome, Fail> {
         handles.push(std::thread::spawn(move || conn_thread(a, t0, c, i)));
     }
     let mut t_flag = None;
+    let mut t_flag_done: Option<Instant> = None;
     if let Some(ms) = s.flag_ms {
         let when = t0 + Duration::from_millis(ms);
         let now = Instant::now();
@@ -176,6 +184,7 @@ pub fn run_scenario(s: &Scn, tag: &str) -> Result<ScnOutcome, Fail> {
         }
         t_flag = Some(Instant::now());
         stop.store(true, Ordering::SeqCst);
+        t_flag_done = Some(Instant::now());
     }
     let obs: Vec<ConnObs> = handles.into_iter().map(|h| h.join().expect("conn thread")).collect();
     let last_close = obs.iter().filter(|o| o.connect.is_some()).map(|o| o.close).max();
@@ -206,19 +215,28 @@ pub fn run_scenario(s: &Scn, tag: &str) -> Result<ScnOutcome, Fail> {
             -((b - a).as_millis() as i64)
         }
     };
+    let mut timeout_despite_flag: Option<String> = None;
     match &result {
         Err(varlink::ErrorKind::Timeout) => {
             if s.idle == 0 {
                 return Err(Fail::new("listen/timeout-without-idle-timeout", "listen() returned a timeout error although idle_timeout is 0".to_string()));
             }
             // only connections proven accepted (they received a reply) reset the countdown for sure
-            let last_connect = obs.iter().filter(|o| !o.bytes.is_empty()).filter_map(|o| o.connect).max().unwrap_or(t_listen).max(t_listen);
+            let last_connect = obs.iter().filter(|o| !o.bytes.is_empty()).filter_map(|o| o.connect_lo).max().unwrap_or(t_listen).max(t_listen);
             let need = last_connect + Duration::from_millis(s.idle * 1000) - Duration::from_millis(20);
             if t_ret < need {
                 return Err(Fail::new(
                     "listen/timeout-too-early",
                     format!("timeout returned {} ms after the last new connection, idle_timeout is {} s", ms(t_ret, last_connect), s.idle),
                 ));
+            }
+            // the loop looks at the flag on every poll tick and a timeout is only decided on such a tick with
+            // nothing in service, so listen() returns right after that look: a timeout error more than 30 ms
+            // after the flag was set means a set flag was passed over (the time is taken in the listen thread)
+            if let Some(tf) = t_flag_done {
+                if t_ret > tf + Duration::from_millis(30) {
+                    timeout_despite_flag = Some(format!("listen() returned a timeout error {} ms after the stop flag had been set (idle_timeout {} s)", ms(t_ret, tf), s.idle));
+                }
             }
         }
         Ok(()) => match t_flag {
@@ -280,7 +298,7 @@ pub fn run_scenario(s: &Scn, tag: &str) -> Result<ScnOutcome, Fail> {
     // (four poll intervals) and was served nevertheless was accepted long after it (judged by repetition)
     if let Some(tf) = t_flag {
         for j in &obs {
-            let Some(tj) = j.connect else { continue };
+            let Some(tj) = j.connect_lo else { continue };
             if !j.bytes.is_empty() && tj > tf + Duration::from_millis(400) {
                 return Ok(ScnOutcome::Unserved(format!(
                     "connection #{} connected {} ms after the stop flag was set and was still accepted and served",
@@ -305,6 +323,9 @@ pub fn run_scenario(s: &Scn, tag: &str) -> Result<ScnOutcome, Fail> {
                 )));
             }
         }
+    }
+    if let Some(m) = timeout_despite_flag {
+        return Ok(ScnOutcome::TimeoutDespiteFlag(m));
     }
     if path.exists() {
         return Err(Fail::new("listen/socket-not-removed", format!("{} still exists after listen() returned", path.display())));
@@ -422,6 +443,16 @@ fn fixed_family() -> Vec<Scn> {
             v.push(Scn { idle: 0, flag_ms: Some(500), workers, conns: vec![c(50, 1200, 1, Some(498)), c(100, 600, 3, None), c(450, 800, 1, None)], must_serve: vec![], flag_never_set: false });
         }
     }
+    // a saturated pool with one more connection queued; the earlier ones end, the queued one is served and
+    // lives across idle deadlines: the loop keeps accepting, a late joiner is served (no stop flag)
+    v.push(Scn { idle: 1, flag_ms: None, workers: (1, 2), conns: vec![c(0, 400, 1, None), c(50, 500, 1, None), c(150, 3000, 1, None), c(2200, 2500, 1, None)], must_serve: vec![], flag_never_set: false });
+    v.push(Scn { idle: 1, flag_ms: None, workers: (2, 3), conns: vec![c(0, 400, 1, None), c(40, 450, 1, None), c(80, 500, 2, None), c(160, 2800, 1, None), c(1900, 2300, 2, None)], must_serve: vec![], flag_never_set: false });
+    v.push(Scn { idle: 1, flag_ms: None, workers: (1, 2), conns: vec![c(0, 300, 1, None), c(50, 350, 1, None), c(150, 2700, 1, None), c(1700, 2000, 1, None)], must_serve: vec![], flag_never_set: true });
+    // the flag is raised inside the last poll interval before the idle deadline of an idle server: it is set
+    // when the loop next looks, so listen() returns Ok, not a timeout error
+    for (idle, flag) in [(1u64, 930u64), (1, 950), (1, 965), (2, 1950)] {
+        v.push(Scn { idle, flag_ms: Some(flag), workers: (1, 4), conns: vec![], must_serve: vec![], flag_never_set: false });
+    }
     v
 }
 
@@ -465,6 +496,21 @@ fn judge(s: &Scn, tag: &str) -> Result<Option<String>, Fail> {
             )),
             _ => Ok(Some(format!("late once: {}", m1))),
         },
+        ScnOutcome::TimeoutDespiteFlag(m1) => {
+            // the flag is set a few tens of milliseconds before the deadline: whether the plan was met is a
+            // matter of scheduling, so the pattern has to show in two further runs out of two
+            let mut again = vec![];
+            for _ in 0..2 {
+                if let ScnOutcome::TimeoutDespiteFlag(m) = run_scenario(s, tag)? {
+                    again.push(m);
+                }
+            }
+            if again.len() == 2 {
+                Err(Fail::new("listen/timeout-although-flag-was-set", format!("three times in a row: {}; {} (scenario {})", m1, again.join("; "), scn_json(s))))
+            } else {
+                Ok(Some(format!("timeout despite flag once: {}", m1)))
+            }
+        }
         ScnOutcome::Unserved(m1) => match run_scenario(s, tag)? {
             ScnOutcome::Unserved(m2) => Err(Fail::new(
                 "listen/stopped-accepting-while-serving",
